@@ -23,12 +23,21 @@ NA = {
 }
 
 PENDING = {
-    "C03": "check under construction in this round (own-sim, DESIGN.md §3); not claimed until it runs",
     "C04": "check under construction in this round (gc-sim, DESIGN.md §4); not claimed until it runs",
     "C14": "check under construction in this round (proc-sim, DESIGN.md §6); not claimed until it runs",
 }
 
 CHECKS = {
+    "C03": {
+        "engine": "own-sim",
+        "technique": "deterministic simulation of ownership histories across the FFI boundary against a ledger reference model; seeded schedules + fault arms, executed natively, under Miri and (C++ layer) under ASan",
+        "level_claimed": {
+            "category": "exploration",
+            "text": "The foreign caller is simulated: seeded histories of create / borrow / convert / clone / bitwise-move / call / destroy operations, with injected unusual-but-legal events (Err/None arms, NULL+0 and foreign-allocated owned slices, zero-length and ZST slices, callbacks without destructor or never called, panicking Clone, stored callbacks replaced or dropped with their owner) are executed against (L1) the runtime's FFI-safe owning types and (L2) the extern \"C\" API the real proc macro generates for an all-shapes bridge. A ledger model (live set of tracked heap tokens) is compared after every operation (exactly-once, no premature drop, no leak, value integrity); Miri checks memory safety of shape-distinct traces. Sampling, not proof.",
+            "design_ref": "DESIGN.md §3",
+        },
+        "level_note": "Trusted: the ledger and tracked tokens (harness code), rustc/Miri semantics, the caller model obeying the documented FFI contract. One hand-written bridge stands for 'all programs'. Allocation failure (abort) and exceptions through Rust frames are out of scope.",
+    },
     "C12": {
         "engine": "write-sim",
         "technique": "deterministic simulation of the buffer owner with injected grow() outcomes: exhaustive fault-sequence enumeration on small spaces + seeded sampling + Miri",
@@ -42,6 +51,7 @@ CHECKS = {
 }
 
 ENGINES = [
+    {"name": "own-sim", "path": "sim/rs/own-sim", "serves_properties": ["C03", "C12"], "kind_free_text": "trace-driven ownership simulator: L1 runtime types, L2 macro-generated extern C API of sim/rs/vbridge (Rust, native + Miri)"},
     {"name": "write-sim", "path": "sim/rs/write-sim", "serves_properties": ["C12"], "kind_free_text": "trace-driven simulator of the DiplomatWrite buffer owner (Rust, native + Miri)"},
 ]
 
